@@ -68,14 +68,7 @@ SCRIPTS = {
         "except Exception as e:\n    r = repr(e); bad = True\nprint(repr(s), '->', r)\nsys.exit(1 if bad else 0)\n"),
 }
 
-_plain = None
-
-
-def plain():
-    global _plain
-    if _plain is None:
-        _plain = core.PlainWorker()
-    return _plain
+plain = hc.plain
 
 
 def mk_string(template):
